@@ -397,6 +397,12 @@ fn run_case(c: &Case, full: bool, seed: u64, r: &mut Report) {
 			wraps += 1;
 		}
 		let cs = |s: &str| mk_case(step, s);
+		// very large capacities (wide PeriodType builds): the O(N) observers are sampled over the ring phases,
+		// the O(1) push oracle above runs on every push
+		let sampled = n <= 5000 || step <= 3 || step + 3 >= c.pushes || step % (n / 8) <= 1 || (step + 1) % n <= 1;
+		if !sampled {
+			continue;
+		}
 		check_state(&w, &m, full, &mut rng, r, &cs);
 		// rebuilds at every phase for small n / thorough, sampled otherwise
 		if (miri && (step == n + 1 || step == c.pushes)) || (!miri && (full || n <= 12 || rng.chance(8.0 / n as f64))) {
